@@ -245,20 +245,31 @@ wait_edge(World &w, size_t ei, bool want_up, bool polling)
 static void
 edge_bring_up(World &w, size_t ei, bool polling)
 {
-	{
-		Edge &e = w.edges[ei];
-		if (e.has_dialer) {
-			e.has_dialer = false;
-			(void) nng_dialer_close(e.d);
+	for (int attempt = 0;; attempt++) {
+		{
+			Edge &e = w.edges[ei];
+			if (e.has_dialer) {
+				e.has_dialer = false;
+				(void) nng_dialer_close(e.d);
+			}
+			MUST(nng_dialer_create(&w.edges[ei].d, w.nodes[(size_t) e.a]->s, e.url.c_str()));
+			w.edges[ei].has_dialer = true;
+			sim_event("edge%zu up: node%d dials node%d", ei, e.a, e.b);
 		}
-		MUST(nng_dialer_create(&w.edges[ei].d, w.nodes[(size_t) e.a]->s, e.url.c_str()));
-		w.edges[ei].has_dialer = true;
-		sim_event("edge%zu up: node%d dials node%d", ei, e.a, e.b);
+		// from here on the two nodes may be connected: concurrent senders can get
+		// a message across before wait_edge has seen both ADD_POST events
+		w.edges[ei].ever_up = true;
+		int rv = nng_dialer_start(w.edges[ei].d, 0);
+		if (rv == NNG_ETIMEDOUT && w.tr == TR_WS && attempt < 5) {
+			// the websocket handshake has a fixed 2 s limit; injected thread stalls
+			// can use it up (legitimate outcome of a blocking dial: try again)
+			sim_probe("c09_ws_dial_handshake_timeout");
+			continue;
+		}
+		if (rv != 0)
+			h_fatal("nng_dialer_start: %s", nng_strerror((nng_err) rv));
+		break;
 	}
-	// from here on the two nodes may be connected: concurrent senders can get
-	// a message across before wait_edge has seen both ADD_POST events
-	w.edges[ei].ever_up = true;
-	MUST(nng_dialer_start(w.edges[ei].d, 0));
 	wait_edge(w, ei, true, polling);
 }
 
